@@ -8,7 +8,7 @@ PROP = "C13"
 GEN = []
 VO = ["Properties/C13.vo", "Extract/D_Hash.vo", "Extract/O_C13.vo"]
 MODULE = "Properties.C13"
-THEOREMS = ["c13_windows", "c13_evictions", "c13_never_failed", "c13_escapes", "c13_revival", "c13_rotation_restored", "c13_no_bypass", "c13_retry_window", "c13_not_evicted_by_one", "c13_eviction_clean", "c13_eviction_contact"]
+THEOREMS = ["c13_windows", "c13_evictions", "c13_never_failed", "c13_escapes", "c13_revival", "c13_rotation_restored", "c13_check_time_bound", "c13_two_periods", "c13_two_periods_all", "c13_no_bypass", "c13_retry_window", "c13_not_evicted_by_one", "c13_eviction_clean", "c13_eviction_contact"]
 DRIVER = "D_Hash"
 ORACLE = "O_C13"
 TECHNIQUE = ("Coq proof on a hand-written Gallina model of HashClient: the probing bounds for every history of key-addressed calls "
@@ -29,8 +29,11 @@ LEVEL_TEXT = ("c13_windows: for every placement function that returns nodes in r
               "c13_retry_window, c13_not_evicted_by_one, c13_eviction_clean (no KeyError/ValueError, only the evicted server "
               "changes), c13_eviction_contact. c13_revival + c13_rotation_restored: the call that finds the "
               "dead-server check due and every evicted server out for more than dead_timeout empties the eviction table, and "
-              "whenever that table is empty the rotation is exactly the set of servers the client started with (the check time only "
-              "moves to the time of a call, hence 'within two dead_timeout periods of traffic'). The search on the real class runs "
+              "whenever that table is empty the rotation is exactly the set of servers the client started with. c13_check_time_bound, "
+              "c13_two_periods, c13_two_periods_all: in every state of every history the last check time is at most dead_timeout later "
+              "than the eviction time of every server still evicted, so the first key-addressed call whose clock reading is later than "
+              "eviction + 2 * dead_timeout revives that server, and when that holds of all evicted servers the rotation is the original "
+              "one ('within two dead_timeout periods of traffic'). The search on the real class runs "
               "the same oracle and clauses (blip episodes, random long histories, recovery probes).")
 LEVEL_NOTE = ("Trusted: Coq kernel; hand model's correspondence with hash.py (random histories of key-addressed calls, clock "
               "advances and failing/recovering servers: results, contact log, hasher nodes, failure/dead tables compared). "
